@@ -1,4 +1,5 @@
 import Indi.Properties.C17
+import Indi.Properties.C17b
 import Indi.Properties.Dec.Wait
 #print axioms Indi.Wait.C17
 #print axioms Indi.Wait.C17_event_is_genuine
@@ -10,3 +11,5 @@ import Indi.Properties.Dec.Wait
 #print axioms Indi.Decisions.wait_deliver_from_source
 #print axioms Indi.Decisions.wait_poll_from_source
 #print axioms Indi.Decisions.wait_timeout_from_source
+#print axioms Indi.Decisions.C17_from_source
+#print axioms Indi.Decisions.run_from_source
